@@ -216,6 +216,44 @@ theorem early_tmp_gone (ct : ConvTable) (fault : Option Nat) (commitOnError : Bo
       | true => exact absurd ⟨rfl, h⟩ hF1
   · intro k hk h; exact hsingle ⟨k, hk, h⟩
 
+/-- **Exactness (C11-F2 shape).**  Conversely, *every* early failure that ended in a later statement of
+`create_table` leaves the temporary table, in both scopes — the hypothesis `¬ FailedInCreateTableTail` of
+`early_tmp_gone` cannot be weakened. -/
+theorem early_tmp_left_create_table_tail (ct : ConvTable) (fault : Option Nat) (commitOnError : Bool) (p : Plan) (t0 : Tbl)
+    (hearly : Early (run ct fault p { orig := some t0, tmp := none }))
+    (hshape : FailedInCreateTableTail (run ct fault p { orig := some t0, tmp := none })) :
+    (final ct fault commitOnError p { orig := some t0, tmp := none }).tmp ≠ none := by
+  unfold final run FailedInCreateTableTail Early at *
+  unfold create at *
+  cases hst : execAll ct fault (Run.start (Conn.fresh { orig := some t0, tmp := none }))
+      (.createTmp p.newSchema :: p.tmpIndexes.map .createTmpIndex) with
+  | mk r1 e1 =>
+    rw [hst] at hearly hshape
+    cases e1 with
+    | some e => exact finish_tmpBoth (stage1_tail_left rfl hst hshape)
+    | none =>
+      simp only at hearly hshape ⊢
+      unfold tryBlock at *
+      cases htry : execAll ct fault r1 [.insertSelect p.feeds, .dropOld] with
+      | mk r2 e2 =>
+        rw [htry] at hearly hshape
+        cases e2 with
+        | none => exact absurd (elseBranch_trace _) hearly
+        | some e =>
+          simp only at hshape
+          obtain ⟨ix, hix⟩ := hshape
+          rw [cleanup_trace] at hix
+          simp at hix
+
+/-- **Exactness (C11-F1 shape).**  … and *every* early failure after which the scope rolls back with the implicit
+transaction open leaves the temporary table — the hypothesis `¬ RolledBackOpenTxn` cannot be weakened either. -/
+theorem early_tmp_left_rolled_back (ct : ConvTable) (fault : Option Nat) (p : Plan) (t0 : Tbl)
+    (hearly : Early (run ct fault p { orig := some t0, tmp := none }))
+    (hshape : RolledBackOpenTxn false (run ct fault p { orig := some t0, tmp := none })) :
+    (final ct fault false p { orig := some t0, tmp := none }).tmp ≠ none := by
+  unfold final run RolledBackOpenTxn Early at *
+  exact create_rolledback_tmp_left rfl hearly hshape.2
+
 /-- **C11.early in the property's own words.**  For a fault injected at statement `k ≤ index(DROP original)`
 (`index(DROP original) = number of create_table statements + 1`, i.e. `p.tmpIndexes.length + 2`), schema, indexes
 and rows of the original table are unchanged — in both scopes, whatever else fails naturally. -/
